@@ -270,7 +270,7 @@ where
     pub fn as_names_snake_cased(&self) -> Vec<String> {
         self.variants
             .iter()
-            .map(|variant| variant.name.to_string().to_case(Case::Snake))
+            .map(|variant| serde_snake_case(&variant.name.to_string()))
             .collect()
     }
 
@@ -310,4 +310,18 @@ where
             _Phantom(std::marker::PhantomData<( #(#used_generics,)* )>),
         }
     }
+}
+
+/// Wire name of an enum variant under `#[serde(rename_all = "snake_case")]`.
+/// Published message names have to follow serde's rule, not `convert_case`'s,
+/// as the two differ for names containing digits (`Step2` is `step2` on the wire).
+fn serde_snake_case(variant: &str) -> String {
+    let mut snake = String::new();
+    for (i, ch) in variant.char_indices() {
+        if i > 0 && ch.is_uppercase() {
+            snake.push('_');
+        }
+        snake.push(ch.to_ascii_lowercase());
+    }
+    snake
 }
